@@ -22,7 +22,7 @@ ASPECT = "C07"
 
 def shards(tier):
     if tier == "quick":
-        return [{"label": "hist%d" % i, "n": 1200} for i in range(12)]
+        return [{"label": "hist%d" % i, "n": 2200} for i in range(14)]
     return [{"label": "hist%d" % i, "n": 60000} for i in range(16)]
 
 
